@@ -150,7 +150,7 @@ theorem error_meaning_noconn {c c' : Core} (t : TEff c c') (rid : Rid) (st : Sty
       simp only [doneEntry, LogEntry.done.injEq] at he
       obtain ⟨_, _, h3, _⟩ := he
       subst h3
-      rcases hres with ⟨e, h⟩ | h <;> cases h
+      exact absurd rfl (dequeueRes_ne hres).1
     | finish m r tx dl res ha hp ht h3 h4 hk =>
       simp only [doneEntry, LogEntry.done.injEq] at he
       exact absurd he.2.2.1.symm h3
@@ -170,7 +170,7 @@ theorem error_meaning_timeout {c c' : Core} (hr : Reach c) (t : TEff c c') (rid 
       simp only [doneEntry, LogEntry.done.injEq] at he
       obtain ⟨_, _, h3, _⟩ := he
       subst h3
-      rcases hres with ⟨e, h⟩ | h <;> cases h
+      exact absurd rfl (dequeueRes_ne hres).2.2
     | finish m r tx dl res ha hp ht h3 h4 hk =>
       simp only [doneEntry, LogEntry.done.injEq] at he
       obtain ⟨h1, _, h3, h4⟩ := he
@@ -178,16 +178,18 @@ theorem error_meaning_timeout {c c' : Core} (hr : Reach c) (t : TEff c c') (rid 
       have hge := (tidy_reach c hr).2 m r tx dl hp
       exact ⟨m, r, tx, dl, hp, h1.symm, by omega, by omega⟩
 
-/-- An I/O or framing error is only produced by the transport event itself (a failed write of the
-    request just taken from the queue, or a read / framing error while the request is in flight),
-    and the same step ends the session with that error. -/
+/-- An I/O or framing error is only produced by the transport event itself (for the request just
+    taken from the queue: a failed write, or a framing error in the bytes that were buffered before
+    it; for the request in flight: a read or framing error), and the same step ends the session
+    with that error. -/
 theorem error_meaning_transport {c c' : Core} (t : TEff c c') (rid : Rid) (st : Style)
     (res : Res) (k : EndKind) (time : Nat) (hk : res.sessionEnd = some k)
     (h : LogEntry.done rid st res time ∈ c'.log) :
     LogEntry.done rid st res time ∈ c.log
       ∨ (time = c.now ∧ c'.pos = .noPhase ∧ LogEntry.fin k c.now ∈ c'.log
           ∧ ((∃ m r tx dl, c.pos = .inflight m r tx dl ∧ r.rid = rid)
-              ∨ (res = .io .pipe ∧ ∃ m r q, c.pos = .idle m ∧ c.queue = .req r :: q ∧ r.rid = rid))) := by
+              ∨ ((res = .io .pipe ∨ ∃ e, res = frameErrRes e)
+                  ∧ ∃ m r q, c.pos = .idle m ∧ c.queue = .req r :: q ∧ r.rid = rid))) := by
   rcases teff_new_done c c' t _ rfl h with h | h
   · exact Or.inl h
   · right
@@ -203,9 +205,10 @@ theorem error_meaning_transport {c c' : Core} (t : TEff c c') (rid : Rid) (st : 
       subst h3
       obtain ⟨e1, e2⟩ := hend k hk
       refine ⟨h4, e1, e2, Or.inr ⟨?_, m, r, q, hp, hq, h1.symm⟩⟩
-      rcases hres with ⟨e, h⟩ | h
+      rcases hres with ⟨e, h⟩ | h | h
       · subst h; cases hk
-      · exact h
+      · exact Or.inl h
+      · exact Or.inr h
     | finish m r tx dl res' ha hp ht h3 h4 hend =>
       simp only [doneEntry, LogEntry.done.injEq] at he
       obtain ⟨h1, _, h3', h4'⟩ := he
@@ -228,7 +231,7 @@ theorem error_meaning_shutdown_task {c c' : Core} (t : TEff c c') (rid : Rid) (s
       simp only [doneEntry, LogEntry.done.injEq] at he
       obtain ⟨_, _, h3, _⟩ := he
       subst h3
-      rcases hres with ⟨e, h⟩ | h <;> cases h
+      exact absurd rfl (dequeueRes_ne hres).2.1
     | finish m r tx dl res ha hp ht h3 h4 hk =>
       simp only [doneEntry, LogEntry.done.injEq] at he
       exact absurd he.2.2.1.symm h4
